@@ -6,6 +6,7 @@ package main
 // the case is cut just before such an instant (counted in the histogram).
 
 import (
+	"encoding/json"
 	"fmt"
 	"math/big"
 	"math/rand"
@@ -20,7 +21,18 @@ func init() {
 	checks["C18"] = func(r *Result, rng *rand.Rand, th bool) { checkLimiter(r, rng, th, "C18") }
 	checks["C19"] = func(r *Result, rng *rand.Rand, th bool) { checkLimiter(r, rng, th, "C19") }
 	replays["C18"] = opsReplay("ratelimit", runRlOps, func(r *Result, ops, impl []string) { rlOracle(r, ops, impl, "C18") })
-	replays["C19"] = opsReplay("ratelimit", runRlOps, func(r *Result, ops, impl []string) { rlOracle(r, ops, impl, "C19") })
+	c19ops := opsReplay("ratelimit", runRlOps, func(r *Result, ops, impl []string) { rlOracle(r, ops, impl, "C19") })
+	replays["C19"] = func(r *Result, raw json.RawMessage) {
+		var rp struct {
+			Ops []string `json:"ops"`
+		}
+		json.Unmarshal(raw, &rp)
+		if len(rp.Ops) > 0 && strings.HasPrefix(rp.Ops[0], "peers ") {
+			peersScenario(r, strings.Fields(rp.Ops[0])[1:])
+			return
+		}
+		c19ops(r, raw)
+	}
 }
 
 // ---- exact reference bucket ----
@@ -487,5 +499,63 @@ func checkLimiter(r *Result, rng *rand.Rand, thorough bool, prop string) {
 	cases = append(cases, Case{Ops: w})
 	impl = append(impl, im)
 	r.noteCase(strings.Join(w, ";"), true)
+	if prop == "C19" {
+		otherClientsOverConnections(r)
+	}
 	compareWithModel(r, "ratelimit", cases, impl, runRlOps)
+}
+
+// otherClientsOverConnections: the same statement with the clients the server sees — connections from different
+// peer addresses (IPv4, IPv6, IPv4-mapped) served by the real connection loop. One client floods far beyond its
+// per-IP limit; every other client, which has sent nothing, must still be admitted (the global bucket has room).
+func otherClientsOverConnections(r *Result) {
+	groups := [][]string{
+		{"10.0.0.1", "10.0.0.2", "192.168.7.9"},
+		{"2001:db8::1", "2001:db8::2", "fe80::1234"},
+		{"::ffff:10.0.0.1", "::ffff:10.0.0.2", "2001:db8::7"},
+		{"2001:db8::1", "10.0.0.2", "::1"},
+	}
+	for _, g := range groups {
+		peersScenario(r, g)
+	}
+}
+
+func peersScenario(r *Result, g []string) {
+	{
+		cfg := absnfs.DefaultRateLimiterConfig()
+		cfg.GlobalRequestsPerSecond = 1000
+		cfg.PerIPRequestsPerSecond, cfg.PerIPBurstSize = 1, 5
+		cfg.PerConnectionRequestsPerSecond, cfg.PerConnectionBurstSize = 1000, 1000
+		absnfs.VerifSetClock(0)
+		s, err := newSrv(NewRefFS(), absnfs.ExportOptions{EnableRateLimiting: true, RateLimitConfig: &cfg})
+		must(err)
+		abuser := servePeer(s, g[0], 40000)
+		admitted := 0
+		for i := 0; i < 60; i++ {
+			rs, _, _, err := abuser.call(progNFS, 3, 0, rootCred(), nil)
+			if err != nil {
+				break
+			}
+			if rs == 0 {
+				admitted++
+			}
+		}
+		r.noteCase(fmt.Sprint("peers", g), true)
+		r.count("peers-over-connections")
+		for _, ip := range g[1:] {
+			v := servePeer(s, ip, 40001)
+			rs, _, _, err := v.call(progNFS, 3, 0, rootCred(), nil)
+			v.Close()
+			if err != nil || rs != 0 {
+				r.violate(Violation{Class: "C19/other-client-refused", What: fmt.Sprintf("client %s flooded 60 calls against a per-IP burst of 5 (%d admitted); the first call of client %s, which had sent nothing, was then refused (reply_stat %d, err %v) although the global limit of 1000/s was untouched by refused traffic", g[0], admitted, ip, rs, err),
+					Ops: []string{"peers " + strings.Join(g, " ")}})
+			}
+		}
+		if admitted > 5 {
+			r.violate(Violation{Class: "C19/own-limit-not-applied", What: fmt.Sprintf("client %s had %d of 60 immediate calls admitted against a per-IP burst of 5", g[0], admitted), Ops: []string{"peers " + strings.Join(g, " ")}})
+		}
+		abuser.Close()
+		s.Close()
+		absnfs.VerifClockOff()
+	}
 }
